@@ -103,7 +103,25 @@ def coeff_assumption(cond, pol):
     return None
 
 
+def eval3(rm, cls, cond, dvar, value):
+    """Three-valued truth of a (possibly compound) dispatch condition for dvar = value: True / False / None (depends on
+    something else).  not / and / or are evaluated with Kleene's rules, so `rtype == 5 or rtype in range(15, 20)` is decided
+    for every code exactly like the two separate arms it may have been merged from."""
+    if cond[0] == "unop" and cond[1] == "Not":
+        t = eval3(rm, cls, cond[2], dvar, value)
+        return None if t is None else not t
+    if cond[0] == "bool":
+        vals = [eval3(rm, cls, p, dvar, value) for p in cond[2]]
+        if cond[1] == "And":
+            return False if any(x is False for x in vals) else True if all(x is True for x in vals) else None
+        return True if any(x is True for x in vals) else False if all(x is False for x in vals) else None
+    if cond[0] == "const":
+        return bool(cond[1])
+    return eval_cond(rm, cls, cond, dvar, value)
+
+
 def arms_for(rm, cls, variants, dvar, value):
+    """Variants whose dispatch path is reachable for dvar = value -> [(variant, residual conditions not about dvar)]."""
     out = []
     for v in variants:
         ok = True
@@ -111,31 +129,28 @@ def arms_for(rm, cls, variants, dvar, value):
         todo = list(v.conds)
         while todo and ok:
             cond, pol = todo.pop(0)
-            if cond[0] == "bool" and cond[1] == "And":
+            t = eval3(rm, cls, cond, dvar, value)
+            if t is not None:
+                if t != pol:
+                    ok = False
+                continue
+            # undecided: split into the parts that are still open
+            if cond[0] == "unop" and cond[1] == "Not":
+                todo.insert(0, (cond[2], not pol))
+                continue
+            if cond[0] == "bool":
+                conj = (cond[1] == "And") == pol          # (A and B) true / (A or B) false: every part has the polarity
                 parts = list(cond[2])
-                if pol:
-                    todo = [(p, True) for p in parts] + todo
-                    continue
-                # not (A and B and ..): decided parts first
-                vals = [eval_cond(rm, cls, p, dvar, value) for p in parts]
-                if any(x is False for x in vals):
-                    continue                      # condition holds
-                rest = [p for p, x in zip(parts, vals) if x is None]
-                if not rest:
-                    ok = False                    # all parts true -> negation false
+                vals = [eval3(rm, cls, p, dvar, value) for p in parts]
+                rest = [p for p, x in zip(parts, vals) if x is None]     # the decided parts are neutral here (else t were decided)
+                if conj:
+                    todo = [(p, pol) for p in rest] + todo
                 elif len(rest) == 1:
-                    todo.insert(0, (rest[0], False))
+                    todo.insert(0, (rest[0], pol))
                 else:
-                    extra.append((("bool", "And", tuple(rest)), False))
+                    extra.append(((cond[0], cond[1], tuple(rest)), pol))
                 continue
-            if cond[0] == "bool" and cond[1] == "Or" and not pol:
-                todo = [(p, False) for p in cond[2]] + todo
-                continue
-            t = eval_cond(rm, cls, cond, dvar, value)
-            if t is None:
-                extra.append((cond, pol))
-            elif t != pol:
-                ok = False
+            extra.append((cond, pol))
         if ok:
             out.append((v, extra))
     return out
